@@ -687,6 +687,8 @@ type ShardJob struct {
 	Bound     int    `json:"bound"`
 	MaxSteps  int    `json:"max_steps"`
 	BudgetS   int    `json:"budget_s"`
+	// DeadlineUnix: the absolute end of the exploration (a shard that starts late gets what is left, at least 1 s)
+	DeadlineUnix int64 `json:"deadline_unix,omitempty"`
 }
 
 type ShardViolation struct {
@@ -780,7 +782,16 @@ func ServeShards(t *testing.T, scenarios map[string]func(s *Sched) (string, stri
 		DeviationMode = job.Deviation
 		var out ShardResult
 		perSig := map[string]int{}
-		out.Stats = exploreFrom(t, job.Prefix, job.Bound, job.MaxSteps, time.Now().Add(time.Duration(job.BudgetS)*time.Second), body, func(ex Execution, choices []int) {
+		end := time.Now().Add(time.Duration(job.BudgetS) * time.Second)
+		if job.DeadlineUnix > 0 {
+			if abs := time.Unix(job.DeadlineUnix, 0); abs.Before(end) {
+				end = abs
+			}
+			if min := time.Now().Add(time.Second); end.Before(min) {
+				end = min
+			}
+		}
+		out.Stats = exploreFrom(t, job.Prefix, job.Bound, job.MaxSteps, end, body, func(ex Execution, choices []int) {
 			perSig[ex.Signature]++
 			if perSig[ex.Signature] > 2 {
 				return
@@ -839,7 +850,7 @@ func ExploreSharded(t *testing.T, pool *Pool, scenario string, bound, maxSteps i
 			continue
 		}
 		for alt := 1; alt < len(p.Enabled); alt++ {
-			b, _ := json.Marshal(ShardJob{Deviation: DeviationMode, Scenario: scenario, Prefix: append(append([]int(nil), choices[:i]...), alt), Bound: bound, MaxSteps: maxSteps, BudgetS: budget})
+			b, _ := json.Marshal(ShardJob{Deviation: DeviationMode, Scenario: scenario, Prefix: append(append([]int(nil), choices[:i]...), alt), Bound: bound, MaxSteps: maxSteps, BudgetS: budget, DeadlineUnix: deadline.Unix()})
 			jobs = append(jobs, string(b))
 		}
 	}
